@@ -34,7 +34,10 @@ RULE = ('a case = one package description: project name/version, 0-5 libraries '
         '(static/shared, chains and diamonds, sub-directories), header dirs/files, '
         'compile/link/private link options, requires/requires_private/conflicts with '
         '1-4 specifiers over {== != < <= > >=} x two-field versions (incl. 1.9/1.10), '
-        'auto_fill on/off with omitted fields, custom libdir/includedir. Kinds: '
+        'auto_fill on/off with omitted fields, custom libdir/includedir; library() '
+        'objects without kind= next to shared_library()/static_library() under '
+        '--enable/--disable-shared x --enable/--disable-static (dual, shared-only, '
+        'static-only), auto-filled from install() and with explicit libs=. Kinds: '
         '"probe" = exactly one hostile token (each of ~35 tokens x {option, '
         'include-dir, link-option, private-link-option, srcdir, builddir, prefix} x '
         'positions), "mixed" = several hostile values, "full" = built with real gcc, '
@@ -104,6 +107,7 @@ def floors(tier):
         'ref:field_ok': 700 if q else 6000,
         'calib:value_admitted': 250 if q else 2500,
         'consumer:built_and_ran': 24 if q else 250,
+        'dual:both_variants_installed': 3 if q else 50,
         'version:exists_eval': 300 if q else 5000,
         'version:ref_agrees': 300 if q else 5000,
         'requires:names_checked': 30 if q else 500,
@@ -492,6 +496,45 @@ def full_case(rng, shape=None, hostile=False, auto=None, also=None):
     return c
 
 
+LIBMODES = [{'shared': True, 'static': True}, {'shared': True, 'static': False},
+            {'shared': False, 'static': True}]
+# (name, constructor, declared kind, deps); library() objects follow the mode
+MODE_SHAPES = [
+    [('alpha', 'library', 'auto', [])],
+    [('inner', 'library', 'auto', []), ('alpha', 'library', 'auto', ['inner'])],
+    [('inner', 'library', 'auto', []), ('alpha', 'library', 'auto', ['inner']),
+     ('beta', 'static_library', 'static', ['inner']),
+     ('gamma', 'shared_library', 'shared', [])],
+    [('base', 'shared_library', 'shared', []), ('alpha', 'library', 'auto', ['base']),
+     ('beta', 'library', 'auto', []), ('delta', 'static_library', 'static', [])],
+]
+
+
+def libmode_case(rng, mode, shape, auto, omit=None):
+    """Built + installed + consumed under a --enable/--disable-shared/static mode
+    with library() objects (no kind=) among shared_library()/static_library()."""
+    c = base_case('full')
+    c['build'] = True
+    c['consumer'] = True
+    c['libmode'] = dict(mode)
+    c['libs'] = [{'name': n, 'path': ('sub/' + n if rng.random() < 0.25 else n),
+                  'ctor': ctor, 'kind': kind, 'deps': list(deps), 'link_options': []}
+                 for n, ctor, kind, deps in shape]
+    names = [l['name'] for l in c['libs']]
+    c['pc_libs'] = [n for n in names if not any(n in l['deps'] for l in c['libs'])]
+    gen_includes(rng, c, rng.randint(1, 3))
+    c['auto_fill'] = auto
+    if auto:
+        c['omit'] = sorted(omit if omit is not None else
+                           ['libs'] + rng.sample(['name', 'version', 'includes'],
+                                                 rng.randint(0, 3)))
+    c['name'] = rng.choice(['foo', 'foo-bar', 'Foo_1'])
+    c['options'] = rng.sample(SAFE_OPTS, rng.randint(0, 2)) + \
+        ['-DSTR0=' + cstr(rng.choice(['plain', 'two words', "it's"]))]
+    c['link_options'] = rng.sample(SAFE_LOPTS[:3], rng.randint(0, 1))
+    return c
+
+
 def mixed_case(rng):
     """Several hostile values at once, never built."""
     c = base_case('mixed')
@@ -576,6 +619,16 @@ def cases(tier, seed):
         out.append(full_case(rng, shape, hostile=(i % 3 == 2),
                              auto=(i // len(shapes)) % 2 == 1,
                              also=True if i % len(shapes) == 3 else None))
+    # phase C2: library() objects under every buildable library mode; auto_fill
+    # from the install()ed set and explicit libs=
+    for rep in range(1 if q else 8):
+        for mi, mode in enumerate(LIBMODES):
+            for si, shape in enumerate(MODE_SHAPES):
+                for auto in (True, False):
+                    if q and not (auto and si in (1, 2)) and \
+                            not (not auto and si == (mi + 1) % len(MODE_SHAPES)):
+                        continue
+                    out.append(libmode_case(rng, mode, shape, auto))
     # phase D: versions
     for want, n in (('single', 7 if q else 150), ('multi', 12 if q else 300),
                     ('unsat', 5 if q else 60), ('conflicts', 6 if q else 100)):
@@ -634,12 +687,16 @@ def render_project(c):
         body += 'int f_%s(void) { return %d%s; }\n' % (
             l['name'], (i + 1) * 7, ''.join(' + f_%s()' % d for d in l['deps']))
         files[src] = body
-        args = [repr(l['path']), 'files=[%r]' % src, 'kind=%r' % l['kind']]
+        args = [repr(l['path']), 'files=[%r]' % src]
+        ctor = l.get('ctor', 'library')
+        decl = l.get('decl_kind', l['kind'])
+        if ctor == 'library' and decl != 'auto':
+            args.append('kind=%r' % decl)
         if l['deps']:
             args.append('libs=[%s]' % ', '.join(var[d] for d in l['deps']))
         if l.get('link_options'):
             args.append('link_options=%r' % l['link_options'])
-        lines.append('%s = library(%s)' % (var[l['name']], ', '.join(args)))
+        lines.append('%s = %s(%s)' % (var[l['name']], ctor, ', '.join(args)))
     hvars = []
     for i, inc in enumerate(c['includes']):
         files[inc['dir'] + '/' + inc['header']] = (
@@ -722,6 +779,10 @@ class Layout:
             a += ['--libdir', self.libdir]
         if c['roots']['includedir']:
             a += ['--includedir', self.includedir]
+        mode = c.get('libmode')
+        if mode:
+            a.append('--enable-shared' if mode['shared'] else '--disable-shared')
+            a.append('--enable-static' if mode['static'] else '--disable-static')
         return a
 
 
@@ -1512,11 +1573,29 @@ def check_conflicts(res, c, lay, name, pcfile, pcpath_gen, pcpath_ref, form, g,
 # --------------------------------------------------------------------------
 # one case
 
+def resolve_kinds(c):
+    """What each library *is* under the configured library mode: library() without
+    kind= follows --enable-shared/--enable-static (both => a dual-use library whose
+    pkg-config face is the shared one, the static one being installed beside it)."""
+    mode = c.get('libmode') or {'shared': True, 'static': False}
+    for l in c['libs']:
+        l['decl_kind'] = l['kind']
+        ctor = l.get('ctor', 'library')
+        if ctor == 'shared_library':
+            l['kind'] = 'shared'
+        elif ctor == 'static_library':
+            l['kind'] = 'static'
+        elif l['kind'] == 'auto':
+            l['kind'] = ('dual' if mode['shared'] and mode['static'] else
+                         'shared' if mode['shared'] else 'static')
+
+
 def effective(c, lay, res):
     """Drop values that a hand-written .pc cannot carry either.  -> (case', esc_of)
     or (None, None) when a root directory itself cannot be carried."""
     c = json.loads(json.dumps(c))
     esc_of = {}
+    resolve_kinds(c)
 
     def adm(field, arg, ctx):
         e = calibrate(lay, field, arg)
@@ -1680,6 +1759,15 @@ def _run_in(case, res, classify, root):
             return
         built = True
         res.ev('make_install_ok')
+        if c.get('libmode'):
+            res.classes.add('libmode:%s%s' % ('shared' if c['libmode']['shared'] else '',
+                                              '+static' if c['libmode']['static'] else ''))
+        for l in c['libs']:
+            if l['kind'] == 'dual':
+                d = os.path.join(lay.libdir, os.path.dirname(l['path']))
+                if all(os.path.exists(os.path.join(d, 'lib%s.%s' % (l['name'], e)))
+                       for e in ('so', 'a')):
+                    res.ev('dual:both_variants_installed')
         ipc = os.path.join(lay.libdir, 'pkgconfig')
         try:
             with open(os.path.join(ipc, name + '.pc'), 'rb') as f1, \
